@@ -29,15 +29,22 @@ Open Scope Q_scope.
 Definition sig := nat -> C.
 Definition inj (n : nat) : Q := inject_Z (Z.of_nat n).
 
-(* Sums that keep every partial sum in lowest terms (Qred).  They are equal to Base's sumn / csumn
-   (Proofs/SpectralP.v: sumr_sumn, csumr_csumn); the reduction only keeps the numbers small when the
-   kernel evaluates the model on float data (a sum of dyadic rationals otherwise multiplies the
-   denominators). *)
+(* ---- Evaluation-friendly forms of the arithmetic (all proved equal to the plain ones in
+   Proofs/SpectralP.v: qaddf_ok, qsubf_ok, caddf_cadd, cmulf_cmul, sumr_sumn, csumr_csumn).
+   The kernel evaluates the model on float data, i.e. on dyadic rationals held as binary positives:
+   * Q's own + forms  num * den'  with the numerator first, and Z.mul recurses on its first argument;
+     with the (power-of-two) denominator first the product costs a shift: qaddf / qsubf;
+   * a sum of dyadic rationals multiplies the denominators: sumr / csumr keep every partial sum in
+     lowest terms (Qred). *)
+Definition qaddf (x y : Q) : Q := (Zpos (Qden y) * Qnum x + Zpos (Qden x) * Qnum y) # (Qden x * Qden y).
+Definition qsubf (x y : Q) : Q := (Zpos (Qden y) * Qnum x - Zpos (Qden x) * Qnum y) # (Qden x * Qden y).
+Definition caddf (a b : C) : C := (qaddf (re a) (re b), qaddf (im a) (im b)).
+Definition cmulf (a b : C) : C := (qsubf (re a * re b) (im a * im b), qaddf (re a * im b) (im a * re b)).
 Definition credc (z : C) : C := (Qred (re z), Qred (im z)).
 Fixpoint sumr (f : nat -> Q) (n : nat) : Q :=
-  match n with O => 0 | S n' => Qred (sumr f n' + f n') end.
+  match n with O => 0 | S n' => Qred (qaddf (sumr f n') (f n')) end.
 Fixpoint csumr (f : nat -> C) (n : nat) : C :=
-  match n with O => c0 | S n' => credc (cadd (csumr f n') (f n')) end.
+  match n with O => c0 | S n' => credc (caddf (csumr f n') (f n')) end.
 
 Inductive sides_arg := SDefault | SOne | STwo.
 Inductive sides := OneSided | TwoSided.
@@ -65,7 +72,7 @@ Definition assemble {A} (zero : A) (dbl2 : A -> A) (N : nat) (q : nat -> A) (k :
   else zero.
 
 (* (Sk * Sk.conj()).real *)
-Definition sq (z : C) : Q := re (cmul z (cconj z)).
+Definition sq (z : C) : Q := re (cmulf z (cconj z)).
 
 (* periodogram(s, Fs, Sk, N, sides, normalize): N = NFFT (length of the spectrum X),
    n = s.shape[-1] *)
@@ -80,7 +87,7 @@ Definition periodogram (sd : sides) (normalize : bool) (N n : nat) (Fs : Q) (X :
    bin -> Q (a weight array of trailing length 1 is the constant function of the bin);
    denom : bin -> Q. *)
 Definition mtm_sum (K : nat) (wx wy : nat -> nat -> Q) (tx ty : nat -> sig) (f : nat) : C :=
-  csumr (fun k => cmul (cscale (wx k f) (tx k f)) (cconj (cscale (wy k f) (ty k f)))) K.
+  csumr (fun k => cmulf (cscale (wx k f) (tx k f)) (cconj (cscale (wy k f) (ty k f)))) K.
 
 (* `sf[1:Fl] *= 2` for one-sided output *)
 Definition dbl (sd : sides) (N : nat) (f : nat) (z : C) : C :=
